@@ -179,7 +179,7 @@ fn exhaustive_replay(v: Value) -> Result<(), Fail> {
 // ------------------------------------------------------------------ coverage-guided lane (libFuzzer)
 
 fn fuzz_spec() -> crate::fuzzlane::FuzzSpec {
-    crate::fuzzlane::FuzzSpec { target: "escape", oracle: |d, o| match std::str::from_utf8(d) { Ok(s) if s.len() <= 64 => check_string(s, o), _ => Ok(()) }, seeds: crate::fuzzlane::seeds_strings, max_len: 64, runs_per_worker: 500000 }
+    crate::fuzzlane::FuzzSpec { target: "escape", oracle: |d, o| match std::str::from_utf8(d) { Ok(s) if s.len() <= 64 => check_string(s, o), _ => Ok(()) }, seeds: crate::fuzzlane::seeds_strings, max_len: 64, runs_per_worker: 1500000 }
 }
 
 fn fuzz_run(ctx: &Ctx, known: &[crate::runner::KnownFinding]) -> crate::runner::LaneReport {
